@@ -132,7 +132,8 @@ def run_case(case):
                 block_cells = [c for _, c in vals]
                 if op.get("as") == "fsarray":
                     bw = max([len(c) for c in block_cells], default=0)
-                    block, e = call(lambda: fsarray([v for v, _ in vals], bw))
+                    # (declared width: the longest row, or more - an FSArray's rows are not padded to it, they keep their length)
+                    block, e = call(lambda: fsarray([v for v, _ in vals], bw + op.get("declared_extra", 0)))
                     if e is not None:
                         continue
                     # an FSArray block's rows are not padded: rows keep their own length
@@ -349,7 +350,7 @@ def history(draw):
                 ln = draw(st.sampled_from([rw, rw, rw, max(rw - 1, 0), 0, rw + 1, rw + 2, max(rw - 2, 0)]))
                 block.append(draw(rowspec(ln)))
             ops.append({"op": "set", "r0": r0, "r1": r1, "c0": c0, "c1": c1, "block": block, "as": draw(st.sampled_from(["list", "list", "fsarray", "tuple"])),
-                        "rows_only": draw(st.booleans())})
+                        "declared_extra": draw(st.sampled_from([0, 0, 1, 2, 5])), "rows_only": draw(st.booleans())})
             h = max(h, r1)
         elif k == 6:
             r, c = draw(st.integers(0, h + 2)), draw(st.integers(0, max(w - 1, 0)))
